@@ -379,6 +379,9 @@ func (a *LCOMAnalyzer) walkNode(node *parser.Node, visitor func(*parser.Node) bo
 	for _, child := range node.Decorator {
 		a.walkNode(child, visitor)
 	}
+	for _, child := range node.Bases {
+		a.walkNode(child, visitor)
+	}
 	for _, child := range node.Args {
 		a.walkNode(child, visitor)
 	}
